@@ -83,7 +83,7 @@ Inv_C11 == ECheck("Inv_C11", status = "done" =>
 CallsData == [i \in 1..Len(calls) |-> [p |-> calls[i].p, fn |-> calls[i].fn,
                                         args |-> [a \in 1..Len(calls[i].args) |-> <<calls[i].args[a][1], ValData(heap, calls[i].args[a][2])>>]]]
 Inv_C07_Trees == ECheck("Inv_C07_Trees", (status # "idle" /\ C07_InDomain(HistDocs, HistSafes)) => C07_TaintSound(work, HistDocs, HistSafes))
-Inv_C07_Eval  == ECheck("Inv_C07_Eval", status # "idle" => C07_EvalHolds(work, status, CallsData, HistDocs, HistSafes))
+Inv_C07_Eval  == ECheck("Inv_C07_Eval", status # "idle" => C07_EvalHolds(work, status, CallsData, Data, HistDocs, HistSafes))
 C07_Witness   == ETerminal /\ C07_InDomain(HistDocs, HistSafes) /\ C07_TaintedDyn(work, HistDocs, HistSafes) # {}
 
 SourceStable == [][status # "idle" => work' = work]_allvars
